@@ -18,7 +18,9 @@ func init() {
 				cfgs = []string{"linux", "linux-race", "darwin", "linux-arm64", "freebsd"}
 			}
 			for _, c := range cfgs {
-				r.use(c)
+				if r.useOpt(c) == nil {
+					continue
+				}
 				c11(r)
 			}
 		})
@@ -345,6 +347,11 @@ func c11(r *Run) {
 		if len(readalls) == 0 {
 			r.ob("C11.R3:drain-before-hup", "the dispatch function drains the socket before honouring a hang-up", disp, nil, false, "no readall() call", false)
 		}
+	}
+
+	// after a descriptor is detached (and its slot freed) no callback fires for it: slots are spliced back only after the batch (C10.R3)
+	if w.Cfg.Name == "linux" || w.Cfg.Name == "darwin" {
+		r.borrow([]string{"C10.R3:who-splices", "C10.R3:splice-after-dispatch", "C10.R3:splice-after-batch", "C10.R2:field-under-token"}, "C10.R", "C11.R2.", func() { c10(r) })
 	}
 
 	// ---- R5 counts ----------------------------------------------------------------------------------
